@@ -129,8 +129,9 @@ def local_label(what, layout, new, o_use, key0):
         t = [o for o in new.occs if id(o.stmt) == key0[1] and o.tok_i == key0[2]]
         tgt = t[0] if t else None
     c = ctx_of(o_use, layout)
-    if c and c.startswith("continued") and not what.startswith("definition-column"):
-        return f"{what}:use-site-{c.split('(')[0]}"
+    if c and c.startswith("continued") and not what.startswith("definition-column") and o_use.role in ("decl", "endname") \
+            and o_use.ent.kind in ("function", "subroutine", "module", "program", "type", "interface"):
+        return f"{what}:name-in-its-own-definition-statement-{c.split('(')[0]}"
     if o_use is not None and o_use.role == "member":
         ti, toks = o_use.tok_i, o_use.stmt.toks
         while fmodel.chain_prev(toks, ti) is not None:
@@ -275,4 +276,6 @@ def replay(ctx, case):
             c = got["range"]["start"]["character"]
             if word and tl[c : c + len(word.group(0))].lower() != word.group(0).lower():
                 out.append(Disc(case.get("signature", "definition-column-off"), f"target column {c} of {tl!r} is not on {word.group(0)!r}"))
+            if "target" in case and [os.path.basename(got["uri"]), got["range"]["start"]["line"]] != list(case["target"]):
+                out.append(Disc(case.get("signature", "definition-differs"), f"definition lands on {os.path.basename(got['uri'])}:{got['range']['start']['line']}, expected {case['target']}"))
     return out
